@@ -162,6 +162,39 @@ std::vector<nix::ndsize_t> idxList(const std::string &tok) {
     for (auto &x : tokList(tok)) v.push_back(tokNat(x));
     return v;
 }
+// ---- every entry point of one retrieval -------------------------------------------------------------------------------
+// The public API offers the same retrieval through many doors: util:: functions taking an index or the array / feature itself,
+// member functions of Tag / MultiTag by index, name or id, the deprecated retrieve* aliases — with an explicit RangeMatch or
+// with their default (Exclusive; Inclusive for the deprecated util:: aliases).  A request is answered through the primary door;
+// the others are then asked the same and must answer the same, text for text (also the same exception class).  The first
+// that does not is reported instead of the primary answer: `ok ROUTES-DIFFER <door> :: <its answer>`.
+typedef std::pair<std::string, std::function<std::string()>> Door;
+// In the home families of retrieval (C05, C06: NIXDRV_DOOR_MOD=1) every request goes through every door; elsewhere every third one
+// (chosen by a hash of the request itself, so that a replay asks the same).
+std::string throughEveryDoor(const std::string &primary, const std::vector<Door> &doors, const Args &a) {
+    if (getenv("NIXDRV_ONE_DOOR")) return primary;
+    const char *mod = getenv("NIXDRV_DOOR_MOD");
+    unsigned long m = mod ? strtoul(mod, nullptr, 10) : 3;
+    if (m > 1) {
+        unsigned long long h = 1469598103934665603ULL;
+        for (auto &t : a) for (unsigned char c : t) { h ^= c; h *= 1099511628211ULL; }
+        if (h % m != 0) return primary;
+    }
+    for (auto &d : doors) {
+        std::string x = guarded(d.second);
+        if (x != primary) return "ok ROUTES-DIFFER " + d.first + " :: " + x;
+    }
+    return primary;
+}
+// like `guarded`, for a function that already returns a complete answer
+std::string guardedRaw(const std::function<std::string()> &f) {
+    bool threw = false; std::string r;
+    std::string g = guarded([&]() { r = f(); return std::string(); });
+    if (g != "ok") return g;
+    (void) threw;
+    return r;
+}
+std::string one(nix::DataView v) { std::vector<nix::DataView> vs; vs.push_back(v); return viewsTok(vs); }
 } // namespace
 
 // tag_oc <shape> <dims> <position> <extent|~> <units> <rm> => ok [offset] [count]
@@ -179,25 +212,57 @@ DRV_OP(tag_oc) {
 // tag_data <shape> <dims> <position> <extent|~> <units> <rm> => ok [extent] [first values] sum
 DRV_OP(tag_data) {
     if (a.size() != 7) throw ProtoError("tag_data arity");
-    return guarded([&]() {
+    return guardedRaw([&]() {
         World w;
         nix::DataArray da = w.array(a[1], a[2]);
         nix::Tag t = w.tag(a[3], a[4], a[5], da);
-        nix::DataView v = nix::util::taggedData(t, (nix::ndsize_t) 0, rm(a[6]));
-        return viewTok(v);
+        nix::RangeMatch m = rm(a[6]);
+        std::string prim = guarded([&]() { nix::DataView v = nix::util::taggedData(t, (nix::ndsize_t) 0, m); return viewTok(v); });
+        std::vector<Door> doors = {
+            {"util::taggedData(tag,array,match)", [&]() { nix::DataView v = nix::util::taggedData(t, da, m); return viewTok(v); }},
+            {"util::retrieveData(tag,0,match)", [&]() { nix::DataView v = nix::util::retrieveData(t, (nix::ndsize_t) 0, m); return viewTok(v); }},
+            {"util::retrieveData(tag,array,match)", [&]() { nix::DataView v = nix::util::retrieveData(t, da, m); return viewTok(v); }}};
+        if (m == nix::RangeMatch::Exclusive) {
+            doors.push_back({"util::taggedData(tag,0)", [&]() { nix::DataView v = nix::util::taggedData(t, (nix::ndsize_t) 0); return viewTok(v); }});
+            doors.push_back({"util::taggedData(tag,array)", [&]() { nix::DataView v = nix::util::taggedData(t, da); return viewTok(v); }});
+            doors.push_back({"Tag::taggedData(0)", [&]() { nix::DataView v = t.taggedData((size_t) 0); return viewTok(v); }});
+            doors.push_back({"Tag::taggedData(name)", [&]() { nix::DataView v = t.taggedData(da.name()); return viewTok(v); }});
+            doors.push_back({"Tag::taggedData(id)", [&]() { nix::DataView v = t.taggedData(da.id()); return viewTok(v); }});
+            doors.push_back({"Tag::retrieveData(0)", [&]() { nix::DataView v = t.retrieveData((size_t) 0); return viewTok(v); }});
+        } else {
+            doors.push_back({"util::retrieveData(tag,0)", [&]() { nix::DataView v = nix::util::retrieveData(t, (nix::ndsize_t) 0); return viewTok(v); }});
+            doors.push_back({"util::retrieveData(tag,array)", [&]() { nix::DataView v = nix::util::retrieveData(t, da); return viewTok(v); }});
+        }
+        return throughEveryDoor(prim, doors, a);
     });
 }
 // tag_feat <shape> <dims> <position> <extent|~> <units> <rm> <linktype> <fshape> <fdims>
 DRV_OP(tag_feat) {
     if (a.size() != 10) throw ProtoError("tag_feat arity");
-    return guarded([&]() {
+    return guardedRaw([&]() {
         World w;
         nix::DataArray da = w.array(a[1], a[2]);
         nix::Tag t = w.tag(a[3], a[4], a[5], da);
         nix::DataArray fa = w.array(a[8], a[9]);
-        t.createFeature(fa, lt(a[7]));
-        nix::DataView v = nix::util::featureData(t, (nix::ndsize_t) 0, rm(a[6]));
-        return viewTok(v);
+        nix::Feature f = t.createFeature(fa, lt(a[7]));
+        nix::RangeMatch m = rm(a[6]);
+        std::string prim = guarded([&]() { nix::DataView v = nix::util::featureData(t, (nix::ndsize_t) 0, m); return viewTok(v); });
+        std::vector<Door> doors = {
+            {"util::featureData(tag,feature,match)", [&]() { nix::DataView v = nix::util::featureData(t, f, m); return viewTok(v); }},
+            {"util::retrieveFeatureData(tag,0,match)", [&]() { nix::DataView v = nix::util::retrieveFeatureData(t, (nix::ndsize_t) 0, m); return viewTok(v); }},
+            {"util::retrieveFeatureData(tag,feature,match)", [&]() { nix::DataView v = nix::util::retrieveFeatureData(t, f, m); return viewTok(v); }}};
+        if (m == nix::RangeMatch::Exclusive) {
+            doors.push_back({"util::featureData(tag,0)", [&]() { nix::DataView v = nix::util::featureData(t, (nix::ndsize_t) 0); return viewTok(v); }});
+            doors.push_back({"util::featureData(tag,feature)", [&]() { nix::DataView v = nix::util::featureData(t, f); return viewTok(v); }});
+            doors.push_back({"Tag::featureData(0)", [&]() { nix::DataView v = t.featureData((size_t) 0); return viewTok(v); }});
+            doors.push_back({"Tag::featureData(array name)", [&]() { nix::DataView v = t.featureData(fa.name()); return viewTok(v); }});
+            doors.push_back({"Tag::featureData(feature id)", [&]() { nix::DataView v = t.featureData(f.id()); return viewTok(v); }});
+            doors.push_back({"Tag::retrieveFeatureData(0)", [&]() { nix::DataView v = t.retrieveFeatureData((size_t) 0); return viewTok(v); }});
+        } else {
+            doors.push_back({"util::retrieveFeatureData(tag,0)", [&]() { nix::DataView v = nix::util::retrieveFeatureData(t, (nix::ndsize_t) 0); return viewTok(v); }});
+            doors.push_back({"util::retrieveFeatureData(tag,feature)", [&]() { nix::DataView v = nix::util::retrieveFeatureData(t, f); return viewTok(v); }});
+        }
+        return throughEveryDoor(prim, doors, a);
     });
 }
 // mtag_oc <shape> <dims> <positions> <flat> <extents|~> <units> <index> <rm> => ok [off] [cnt]
@@ -215,37 +280,88 @@ DRV_OP(mtag_oc) {
 // mtag_data <shape> <dims> <positions> <flat> <extents|~> <units> <indices> <rm> => ok n view | view ...
 DRV_OP(mtag_data) {
     if (a.size() != 9) throw ProtoError("mtag_data arity");
-    return guarded([&]() {
+    return guardedRaw([&]() {
         World w;
         nix::DataArray da = w.array(a[1], a[2]);
         nix::MultiTag t = w.mtag(a[3], a[4] == "1", a[5], a[6], da);
-        std::vector<nix::ndsize_t> idx = idxList(a[7]);
-        std::vector<nix::DataView> vs = nix::util::taggedData(t, idx, (nix::ndsize_t) 0, rm(a[8]));
-        return viewsTok(vs);
+        const std::vector<nix::ndsize_t> idx0 = idxList(a[7]);
+        nix::RangeMatch m = rm(a[8]);
+        std::string prim = guarded([&]() { std::vector<nix::ndsize_t> idx = idx0; std::vector<nix::DataView> vs = nix::util::taggedData(t, idx, (nix::ndsize_t) 0, m); return viewsTok(vs); });
+        std::vector<Door> doors = {
+            {"util::taggedData(mtag,list,array,match)", [&]() { std::vector<nix::ndsize_t> idx = idx0; std::vector<nix::DataView> vs = nix::util::taggedData(t, idx, da, m); return viewsTok(vs); }},
+            {"util::retrieveData(mtag,list,0,match)", [&]() { std::vector<nix::ndsize_t> idx = idx0; std::vector<nix::DataView> vs = nix::util::retrieveData(t, idx, (nix::ndsize_t) 0, m); return viewsTok(vs); }},
+            {"util::retrieveData(mtag,list,array,match)", [&]() { std::vector<nix::ndsize_t> idx = idx0; std::vector<nix::DataView> vs = nix::util::retrieveData(t, idx, da, m); return viewsTok(vs); }}};
+        if (m == nix::RangeMatch::Exclusive) {
+            doors.push_back({"util::taggedData(mtag,list,0)", [&]() { std::vector<nix::ndsize_t> idx = idx0; std::vector<nix::DataView> vs = nix::util::taggedData(t, idx, (nix::ndsize_t) 0); return viewsTok(vs); }});
+            doors.push_back({"MultiTag::taggedData(list,0)", [&]() { std::vector<nix::ndsize_t> idx = idx0; std::vector<nix::DataView> vs = t.taggedData(idx, (nix::ndsize_t) 0); return viewsTok(vs); }});
+            doors.push_back({"MultiTag::taggedData(list,name)", [&]() { std::vector<nix::ndsize_t> idx = idx0; std::vector<nix::DataView> vs = t.taggedData(idx, da.name()); return viewsTok(vs); }});
+        }
+        if (idx0.size() == 1) {
+            doors.push_back({"util::taggedData(mtag,i,0,match)", [&]() { return one(nix::util::taggedData(t, idx0[0], (nix::ndsize_t) 0, m)); }});
+            doors.push_back({"util::taggedData(mtag,i,array,match)", [&]() { return one(nix::util::taggedData(t, idx0[0], da, m)); }});
+        }
+        return throughEveryDoor(prim, doors, a);
     });
 }
 // mtag_data1 … <index> <rm> : the single-index overload
 DRV_OP(mtag_data1) {
     if (a.size() != 9) throw ProtoError("mtag_data1 arity");
-    return guarded([&]() {
+    return guardedRaw([&]() {
         World w;
         nix::DataArray da = w.array(a[1], a[2]);
         nix::MultiTag t = w.mtag(a[3], a[4] == "1", a[5], a[6], da);
-        nix::DataView v = nix::util::taggedData(t, (nix::ndsize_t) tokNat(a[7]), (nix::ndsize_t) 0, rm(a[8]));
-        return viewTok(v);
+        nix::ndsize_t i = (nix::ndsize_t) tokNat(a[7]);
+        nix::RangeMatch m = rm(a[8]);
+        std::string prim = guarded([&]() { nix::DataView v = nix::util::taggedData(t, i, (nix::ndsize_t) 0, m); return viewTok(v); });
+        std::vector<Door> doors = {
+            {"util::taggedData(mtag,i,array,match)", [&]() { nix::DataView v = nix::util::taggedData(t, i, da, m); return viewTok(v); }},
+            {"util::retrieveData(mtag,i,0,match)", [&]() { nix::DataView v = nix::util::retrieveData(t, i, (nix::ndsize_t) 0, m); return viewTok(v); }},
+            {"util::retrieveData(mtag,i,array,match)", [&]() { nix::DataView v = nix::util::retrieveData(t, i, da, m); return viewTok(v); }}};
+        if (m == nix::RangeMatch::Exclusive) {
+            doors.push_back({"util::taggedData(mtag,i,0)", [&]() { nix::DataView v = nix::util::taggedData(t, i, (nix::ndsize_t) 0); return viewTok(v); }});
+            doors.push_back({"util::taggedData(mtag,i,array)", [&]() { nix::DataView v = nix::util::taggedData(t, i, da); return viewTok(v); }});
+            doors.push_back({"MultiTag::taggedData(i,0)", [&]() { nix::DataView v = t.taggedData((size_t) i, (size_t) 0); return viewTok(v); }});
+            doors.push_back({"MultiTag::taggedData(i,name)", [&]() { nix::DataView v = t.taggedData((size_t) i, da.name()); return viewTok(v); }});
+            doors.push_back({"MultiTag::retrieveData(i,0)", [&]() { nix::DataView v = t.retrieveData((size_t) i, (size_t) 0); return viewTok(v); }});
+        } else {
+            doors.push_back({"util::retrieveData(mtag,i,0)", [&]() { nix::DataView v = nix::util::retrieveData(t, i, (nix::ndsize_t) 0); return viewTok(v); }});
+            doors.push_back({"util::retrieveData(mtag,i,array)", [&]() { nix::DataView v = nix::util::retrieveData(t, i, da); return viewTok(v); }});
+        }
+        return throughEveryDoor(prim, doors, a);
     });
 }
 // mtag_feat <shape> <dims> <positions> <flat> <extents|~> <units> <indices> <rm> <linktype> <fshape> <fdims>
 DRV_OP(mtag_feat) {
     if (a.size() != 12) throw ProtoError("mtag_feat arity");
-    return guarded([&]() {
+    return guardedRaw([&]() {
         World w;
         nix::DataArray da = w.array(a[1], a[2]);
         nix::MultiTag t = w.mtag(a[3], a[4] == "1", a[5], a[6], da);
         nix::DataArray fa = w.array(a[10], a[11]);
-        t.createFeature(fa, lt(a[9]));
-        std::vector<nix::DataView> vs = nix::util::featureData(t, idxList(a[7]), (nix::ndsize_t) 0, rm(a[8]));
-        return viewsTok(vs);
+        nix::Feature f = t.createFeature(fa, lt(a[9]));
+        const std::vector<nix::ndsize_t> idx0 = idxList(a[7]);
+        nix::RangeMatch m = rm(a[8]);
+        std::string prim = guarded([&]() { std::vector<nix::DataView> vs = nix::util::featureData(t, idx0, (nix::ndsize_t) 0, m); return viewsTok(vs); });
+        std::vector<Door> doors = {
+            {"util::featureData(mtag,list,feature,match)", [&]() { std::vector<nix::DataView> vs = nix::util::featureData(t, idx0, f, m); return viewsTok(vs); }},
+            {"util::retrieveFeatureData(mtag,list,0,match)", [&]() { std::vector<nix::DataView> vs = nix::util::retrieveFeatureData(t, idx0, (nix::ndsize_t) 0, m); return viewsTok(vs); }},
+            {"util::retrieveFeatureData(mtag,list,feature,match)", [&]() { std::vector<nix::DataView> vs = nix::util::retrieveFeatureData(t, idx0, f, m); return viewsTok(vs); }}};
+        if (idx0.size() == 1) {
+            nix::ndsize_t i = idx0[0];
+            doors.push_back({"util::featureData(mtag,i,0,match)", [&, i]() { return one(nix::util::featureData(t, i, (nix::ndsize_t) 0, m)); }});
+            doors.push_back({"util::featureData(mtag,i,feature,match)", [&, i]() { return one(nix::util::featureData(t, i, f, m)); }});
+            doors.push_back({"util::retrieveFeatureData(mtag,i,0,match)", [&, i]() { return one(nix::util::retrieveFeatureData(t, i, (nix::ndsize_t) 0, m)); }});
+            doors.push_back({"util::retrieveFeatureData(mtag,i,feature,match)", [&, i]() { return one(nix::util::retrieveFeatureData(t, i, f, m)); }});
+            if (m == nix::RangeMatch::Exclusive) {
+                doors.push_back({"util::featureData(mtag,i,0)", [&, i]() { return one(nix::util::featureData(t, i, (nix::ndsize_t) 0)); }});
+                doors.push_back({"MultiTag::featureData(i,0)", [&, i]() { return one(t.featureData((size_t) i, (size_t) 0)); }});
+                doors.push_back({"MultiTag::featureData(i,array name)", [&, i]() { return one(t.featureData((size_t) i, fa.name())); }});
+                doors.push_back({"MultiTag::featureData(i,feature id)", [&, i]() { return one(t.featureData((size_t) i, f.id())); }});
+            } else {
+                doors.push_back({"util::retrieveFeatureData(mtag,i,0)", [&, i]() { return one(nix::util::retrieveFeatureData(t, i, (nix::ndsize_t) 0)); }});
+            }
+        }
+        return throughEveryDoor(prim, doors, a);
     });
 }
 // slice <shape> <dims> <starts> <ends> <units> <rm> => ok [extent] [first] sum
